@@ -212,20 +212,21 @@ CLAIMED.update({
 
 CLAIMED.update({
  "C07": dict(category="other",
-    text="Client side of the opening handshake (WebSocketClientProtocol.processHandshake, whole function): for every octet "
-         "string in the receive buffer and every way it was segmented -- nothing happens before CRLFCRLF is present; a "
-         "complete header either opens the connection or drops it (never both, never neither); no exception escapes; "
-         "and whenever the connection is opened the response carried Upgrade: websocket, the Sec-WebSocket-Accept value "
-         "equal to base64(SHA1(own key + RFC 6455 GUID)), no subprotocol other than one the client requested, the "
-         "open-handshake timer is cancelled, onConnect is scheduled once and exactly the octets after the header are "
-         "kept for the frame decoder. Solver unknowns go to a replay of good / single-defect / undecodable responses "
-         "under several read boundaries on the real class.",
-    note="Trusted: z3, pyvc, SHA-1 / base64 uninterpreted, parseHttpHeader by an assumed contract, string functions "
-         "(strip, lower, split, format) as functions of their arguments with only length facts for split -- this proves "
-         "necessary conditions of acceptance and exception-freedom, not that every valid response is accepted. Not "
-         "covered (level 'other'): the server side (request validation chain, origin policy, connection limit, "
-         "succeedHandshake), request construction and URL parsing, responses with extensions (C12), library-to-library "
-         "interoperability.",
+    text="Both processHandshake functions are under contract as whole functions, for every octet string in the receive buffer "
+         "and every segmentation: nothing happens before CRLFCRLF is present; a complete header is either accepted (client: "
+         "connection opened; server: request passed to onConnect) or answered / dropped -- never both, never neither; no "
+         "exception escapes. Necessary conditions of acceptance -- client: Upgrade: websocket, Sec-WebSocket-Accept == "
+         "base64(SHA1(own key + GUID)), no subprotocol other than a requested one, open-handshake timer cancelled, onConnect "
+         "scheduled once; server: Host / Upgrade / Connection present, version in the configured set, key of 24 characters "
+         "ending in '==', connection limit not exceeded; both: exactly the octets after the header are kept for the frame "
+         "decoder. Solver unknowns go to a replay of valid / single-defect / undecodable inputs under several read "
+         "boundaries on the real classes.",
+    note="Trusted: z3, pyvc, SHA-1 / base64 uninterpreted, parseHttpHeader / _url_to_origin / _is_same_origin / urllib / "
+         "hyperlink by assumed contracts, text functions (strip, lower, split, format, comprehensions over split results) "
+         "as over-approximations with only length facts -- this proves necessary conditions of acceptance and "
+         "exception-freedom, not that every valid peer is accepted. Not covered (level 'other'): sufficiency, the origin "
+         "policy functions themselves, succeedHandshake (response construction), request construction and URL parsing, "
+         "extension headers (C12), X-Forwarded-For handling, the Flash policy branch, library-to-library interoperability.",
     technique="contract-based deductive verification: AST->VC with over-approximated text functions, uninterpreted digest, z3"),
 })
 
